@@ -423,6 +423,20 @@ the getter loads its field once, then computes on what it loaded -/
 def readAt (v0 : Dir) (pubs : List Dir) (k : Nat) (q : Query) : Answer :=
   q.answer ((runStores v0 ((storesOf pubs).take k)).only q.field)
 
+/-- a getter written with TWO loads of its field — the shape
+`names := make([]string, len(s.GetWorkServices())); for k, v := range s.GetWorkServices() { names[k] = v.Name }`:
+the result is sized from the first load and filled from the second.  `none` = the Go code panics
+(index out of range: the second load holds more items than the first). -/
+def namesTwoLoads (d1 d2 : Dir) : Option (List String) :=
+  let n := d1.getWorkServices.length
+  let xs := d2.getWorkServiceNames
+  if xs.length ≤ n then some (xs ++ List.replicate (n - xs.length) "") else none
+
+/-- such a reader against the updater: first load after `k1` field stores, second after `k2` -/
+def readNamesAt2 (v0 : Dir) (pubs : List Dir) (k1 k2 : Nat) : Option (List String) :=
+  namesTwoLoads ((runStores v0 ((storesOf pubs).take k1)).only .workingServices)
+    ((runStores v0 ((storesOf pubs).take k2)).only .workingServices)
+
 /-- `Cluster.makeFullNameServices`: `type.name` for every local service that has a config entry -/
 def makeFullNameServices (services : List String) (cfg : AL String) : List String :=
   services.filterMap (fun n => (cfg.get n).map (fun t => t ++ "." ++ n))
